@@ -295,7 +295,7 @@ fn dbscan_with<D: Distance<Vec<f64>, f64> + serde::Serialize>(case: &DbscanCase,
     Ok(())
 }
 
-fn check_dbscan(case: &DbscanCase, ctx: &mut Ctx) -> Result<(), Fail> {
+pub fn check_dbscan(case: &DbscanCase, ctx: &mut Ctx) -> Result<(), Fail> {
     ctx.label(format!("class:{}", case.class));
     ctx.label(format!("metric:{:?}", case.metric));
     match case.metric {
